@@ -1,5 +1,6 @@
 -- @checker ed edCheck
 import Chewing.Model.Editor
+import Chewing.Model.Candidates
 import Chewing.Driver.Util
 /-!
 `ed …` records: one step of the editor state machine, recomputed from the implementation's own
@@ -513,6 +514,14 @@ def runOp (env : Env MemDict Lay) (e : Editor MemDict Lay) (fn : String) (a : Li
     let ((key, phrase), _) := (do let k ← listOf num; let p ← textTok; return (k, p) : P _).run toks
     .ok ({ e with shared := Shared.unlearnPhrase env e.shared key phrase }, "ok")
   | "jump", [j] => (e.jump env (natOf j)).map fun (e', okk) => (e', okS okk)
+  | "cands", [] =>
+    -- C07: the candidate getters (pure): `tp=<total_page>,pn=<page>,all=<hex>/…,pag=<hex>/…`
+    match e.allCandidates env, e.paginatedCandidates env, e.totalPage env, e.currentPageNo with
+    | .ok (some all), .ok (some pag), .ok (some tp), some pn =>
+      let join (l : List Text) := "/".intercalate (l.map hxCps)
+      .ok (e, s!"tp={tp},pn={pn},all={join all},pag={join pag}")
+    | .ok none, _, _, _ => .ok (e, "closed")
+    | _, _, _, _ => .ok (e, "panic")
   | _, _ => .panic "driver: unknown op"
 
 /-- `ed <op…> | <pre> | <dict> | <answers> => ok | <post> | <ret> | <dict'>`  or  `=> panic` -/
